@@ -292,7 +292,8 @@ class Ctx:
         """'[1; 2]' or '[]' or '[1; 2]%N' -> [1,2]"""
         if text is None:
             return None
-        return [int(x) for x in re.findall(r"\d+", text.split("%")[0])]
+        # elements may carry their own scope marker: [1%N; 2%N]
+        return [int(x) for x in re.findall(r"\d+", re.sub(r"%[A-Za-z_]+", "", text))]
 
     # ---------------------------------------------------------------- harness
     def build_harness(self, name, tags="verif"):
